@@ -30,6 +30,7 @@ struct Env {
 };
 void env_apply(const Env &e); // installs files + environment variables + hostname
 void lib_init();              // once per process: hooks + ares_library_init_mem(ledger)
+void set_if_lookup_action(std::function<void()> fn); // one-shot: runs inside the application's next interface lookup callback
 void install_sockfuncs(ares_channel_t *ch); // dummy sockets + the application's interface table (lo 1, eth0 2, eth1 3 as the OS, plus vnet0 7)
 
 // ------------------------------------------------- effective configuration
